@@ -620,7 +620,7 @@ class Sim(object):
                 "sing": bool(w.singleton), "resp": bool(w.respawn),
                 "G": _safe_ms(w.graceful_timeout), "W": _safe_ms(w.warmup_delay),
                 "ssig": _safe_int(w.stop_signal), "sch": bool(w.stop_children), "od": bool(w.on_demand),
-                "mage": _safe_int(w.max_age), "hup": bool(w.send_hup), "ver": _cmd_ver(w.cmd),
+                "mage": max(_safe_int(w.max_age), 0) * 10, "hup": bool(w.send_hup), "ver": _cmd_ver(w.cmd),      # (ticks of 0.1 s, as in Core)
                 "pr": [[k.short(p.pid), int(p.wid), 1 if p.stopping else 0]
                        for p in w.processes.values()]}
 
